@@ -93,9 +93,16 @@ def run_program(chk, da, prog, sources, want, optimize):
         chk.violation("; ".join(sorted(set(problems))[:3]), {**desc, "optimize_graph": optimize, "advertised_chunks": adv[2]},
                       signature={"class": "block-shape" if "block" in problems[0] else "metadata", "root_op": prog[0],
                                  "swv_reduction": any(q[0] == "swv" and q[4] is not None for q in nodes),
-                                 "zero_length_axis": any(s == 0 for s in adv[0])})
+                                 "zero_length_axis": any(s == 0 for s in adv[0]),
+                                 "unstable_chunks_below_root": _unstable(prog, sources)})
     else:
         chk.traces_validated += nblocks
+
+
+def _unstable(prog, sources):
+    import c01
+    import dask_array as da
+    return c01.unstable_chunks_below(da, prog, sources)
 
 
 def replay(path):
@@ -110,7 +117,7 @@ def run(chk: Check):
     chk.run_proofs()
     import c01
     for tag, prog, sources in c01.CORPUS:
-        if tag in ("F17", "F20", "F25"):
+        if tag in ("F17", "F20", "F25", "F33c"):
             run_program(chk, da, prog, sources, None, True)
     for _ in range(1500 if chk.tier == "thorough" else 200):
         prog, sources, want = progs.misaligned_take(chk.rng)
